@@ -86,7 +86,7 @@ def generate(rng, tier, shard, nshards):
                "zero_row", "nan_row", "inf_row", "rank1_for_array", "rank3", "cols5", "cols2"]
     for i in range(max(n // 2, len(kinds_v) * 3)):
         yield Case("reject_vec", "reject:vector", kind=kinds_v[i % len(kinds_v)], base=gens.unit(rng) * gens.logu(rng, 1e-3, 1e3), pos=int(rng.integers(4)))
-    kinds_m = ["scaled", "sheared", "reflected", "negated", "nan", "inf", "zeros", "2x2", "3x4", "flat9", "nonorth", "singular", "ones"]
+    kinds_m = ["scaled", "sheared", "sheared_left", "skewed_pair", "reflected", "negated", "nan", "inf", "zeros", "2x2", "3x4", "flat9", "nonorth", "singular", "ones"]
     for i in range(max(n, len(kinds_m) * 8)):
         yield Case("reject_mat", "reject:matrix", kind=kinds_m[i % len(kinds_m)], R=rq.rodrigues(*gens.rot_axang(rng, "generic")),
                    eps=gens.logu(rng, 3e-4, 1.0) * float(rng.choice([-1, 1])), i=int(rng.integers(3)), j=int(rng.integers(3)),
@@ -298,6 +298,15 @@ def bad_matrix(p):
         S = np.eye(3)
         S[i, (i + 1) % 3] = e
         return R @ S
+    if kind == "sheared_left":      # rows keep (almost) unit length, but two of them are no longer perpendicular
+        S = np.eye(3)
+        S[i, (i + 1) % 3] = e
+        return S @ R
+    if kind == "skewed_pair":       # two unit rows tilted towards each other by the angle e, third row untouched: unit rows, unit determinant to O(e^2)
+        M = R.copy()
+        a, b = M[i].copy(), M[(i + 1) % 3].copy()
+        M[i] = np.cos(e) * a + np.sin(e) * b
+        return M
     if kind == "reflected":
         D = np.eye(3)
         D[i, i] = -1.0
